@@ -18,6 +18,7 @@ EXPLANATION = (
     "the separation value; the numeric slack budget (< 3 along, < 1 across) is arithmetic on those facts and is not "
     "decided."
     "  Geometry is derived with and without showBorder (the TikZ bordered box is a separate code path); the caller's options reach the drawing (GEN.OPTS-MERGE)."
+    '  C08.POSITIVE-SIZE: the default label height / width constants the library supplies are positive.'
 )
 ASSUMPTIONS = ["C01 (same-layer separation) holds", "H - t >= 0 by C08.THICKNESS"]
 
